@@ -27,9 +27,10 @@ def one(args):
             if fill > 0:
                 lines.append(" RMB %d\n" % fill)
             if size >= 3:
-                lines.append(" RTS \n")
+                lines.append("LAST RTS \n")
+        endlabel = "LAST" if (cfg["endop"] and size >= 3 and cfg.get("marker") == 2) else "START"     # END names the first statement or a later one
         if cfg["endop"]:
-            lines.append(" END START\n")
+            lines.append(" END %s\n" % endlabel)
         src = os.path.join(W, "p.asm")
         open(src, "w").write("".join(lines))
         rec = asmio.assemble(list(lines))
@@ -42,7 +43,7 @@ def one(args):
             argv += ["--name", cli_name]
         code, out = hostrun.run_main(assembler, argv)
         expected = cfg["name"] if cfg["src"] in ("nam", "both") else (cli_name if cfg["src"] == "cli" else "")
-        t = {"id": k, "image": rec["image"], "origin": rec["origin"], "entry": [rec["origin"]], "name": ct.codes(expected),
+        t = {"id": k, "image": rec["image"], "origin": rec["origin"], "entry": sorted(set([rec["origin"]] + ([x["v"] for x in rec["symtab"] if x["s"] == endlabel] if cfg["endop"] else []))), "name": ct.codes(expected),
              "want": {s: (s in cfg["sw"]) for s in ("bin", "cas", "dsk")}, "asm_outcome": rec["outcome"], "exit": code}
         for s in ("bin", "cas", "dsk"):
             p, b = hostrun.observe(outs[s], s, True)
